@@ -488,6 +488,7 @@ kll_sketch<T, C, A> kll_sketch<T, C, A>::deserialize(std::istream& is, const Ser
     read(is, levels.data(), sizeof(levels[0]) * num_levels);
   }
   levels[num_levels] = capacity;
+  check_levels(levels, num_levels, n);
   optional<T> tmp; // space to deserialize min and max
   optional<T> min_item;
   optional<T> max_item;
@@ -578,6 +579,7 @@ kll_sketch<T, C, A> kll_sketch<T, C, A>::deserialize(const void* bytes, size_t s
     ptr += copy_from_mem(ptr, levels.data(), sizeof(levels[0]) * num_levels);
   }
   levels[num_levels] = capacity;
+  check_levels(levels, num_levels, n);
   optional<T> tmp; // space to deserialize min and max
   optional<T> min_item;
   optional<T> max_item;
@@ -902,6 +904,22 @@ void kll_sketch<T, C, A>::check_serial_version(uint8_t serial_version) {
     throw std::invalid_argument("Possible corruption: serial version mismatch: expected "
         + std::to_string(SERIAL_VERSION_1) + " or " + std::to_string(SERIAL_VERSION_2)
         + ", got " + std::to_string(serial_version));
+  }
+}
+
+// the level offsets must not decrease and the weights of the retained items must add up to n
+template<typename T, typename C, typename A>
+void kll_sketch<T, C, A>::check_levels(const vector_u32& levels, uint8_t num_levels, uint64_t n) {
+  uint64_t weight = 0;
+  for (uint8_t level = 0; level < num_levels; ++level) {
+    if (levels[level] > levels[level + 1] || level > 63) {
+      throw std::invalid_argument("Possible corruption: invalid level offsets");
+    }
+    weight += static_cast<uint64_t>(levels[level + 1] - levels[level]) << level;
+  }
+  if (weight != n) {
+    throw std::invalid_argument("Possible corruption: n is " + std::to_string(n)
+        + ", the retained items weigh " + std::to_string(weight));
   }
 }
 
